@@ -48,6 +48,32 @@ theorem source_length_any_form (allowIndef : Bool) (b : UInt8) (lb : Bytes) (n :
   have : ¬ ((n : Int) > 9223372036854775807) := by omega
   simp [Kernels.liftDecLen, this]
 
+/-- **length octets round trip at the source level**: what the translated `encodeLength` writes for a length (definite
+    mode; any length up to `sys.maxsize` that fits 126 octets), the translated `stDecodeLength` block reads back as that
+    length - the encoder's and the decoder's code as they are in the working tree, composed -/
+theorem source_length_roundtrip (allowIndef indefOk : Bool) (n : Nat) (hn : n ≤ 9223372036854775807) :
+    ∃ (b : UInt8) (lb : Bytes), GenK.encodeLength indefOk (n : Int) true = .ok (Kernels.bytesInts (b :: lb)) ∧
+      GenK.decodeLength allowIndef (b.toNat : Int) (Kernels.bytesInts (lb.take (b.toNat % 128))) = .ok (n : Int) := by
+  have hfits : ∃ l, encodeLength n = some l := by
+    unfold encodeLength
+    by_cases hs : n < 0x80
+    · exact ⟨_, by simp only [hs, if_true]; rfl⟩
+    · have hlen : (be256 n).length ≤ 8 := Kernels.be256_length_le 8 n (by
+        show n < 256 ^ 8
+        omega)
+      have : ¬ (be256 n).length > 126 := by omega
+      exact ⟨_, by simp only [hs, this, if_false]; rfl⟩
+  obtain ⟨l, hl⟩ := hfits
+  have hdec := decodeLength_encodeLength n l hl
+  have hne : l ≠ [] := by
+    intro h0; subst h0
+    have := hdec []
+    simp [decodeLength] at this
+  obtain ⟨b, lb, rfl⟩ := List.exists_cons_of_ne_nil hne
+  refine ⟨b, lb, ?_, source_length_any_form allowIndef b lb n hdec hn⟩
+  rw [Kernels.encodeLength_kernel]
+  simp [encLen, hl, Kernels.liftLen]
+
 /-- over-long form: `82 00 03` is read as 3; the indefinite marker as -1 by BER and refused by a codec without
     indefinite lengths (DER) -/
 example : GenK.decodeLength true 0x82 [0, 3] = .ok 3 := by rfl
